@@ -56,7 +56,7 @@ class Check:
             o[1] += 1
         if nontrivial:
             self.nontrivial.add((rid, desc))
-        if sample or (len([s for s in self.samples if s.get("rule") == rid]) < 4):
+        if sample or (len([s for s in self.samples if s.get("rule") == rid]) < 10):
             self.samples.append({"rule": rid, "instance": desc, "held": bool(ok)})
 
     def violation(self, rid, key, where, msg, detail=None):
@@ -99,7 +99,7 @@ class Check:
             "rule": "one evaluation = one rule instance (call site, array access, global, token type x writer, ...) "
                     "found in /repo's current AST/CFG; non-trivial = the instance needed an argument (guard, "
                     "dominator, table lookup), distinct by (rule, construct)",
-            "samples": self.samples[:40],
+            "samples": self.samples[:80],
             "analysed": self.analysed,
             "floors": [{"rule": r, "matched": g, "floor": fl, "what": w} for r, g, fl, w in self.floors],
             "known_findings_reported": [v["key"] for v, _ in listed],
